@@ -89,6 +89,17 @@ def cases(tier, rng):
             ops += ["send 6d31", "send 6d32", "send 6d33;74", "wire c", "wire b", "dropped c"]
             out.append("g%d sock %s / %s" % (k, sock, " / ".join(ops)))
             k += 1
+    # a subscriber that does not take anything for a while and then drains: what comes out is what fitted below the write
+    # mark plus one message - the rest was dropped whole, not kept
+    for sock in ("PUB", "XPUB"):
+        for size, n in ((70000, 6), (20000, 12), (132000, 3), (1000, 200)):
+            sub = W.tok(W.msg([b"\x01"]))
+            after = ["settle"] if sock == "PUB" else ["recv"]
+            ops = ["attach a SUB", "attach b SUB", "feed a " + sub] + after + ["feed b " + sub] + after + ["wmode a stall"]
+            ops += ["send r%d.%02x" % (size, 0x41 + (i % 20)) for i in range(n)]
+            ops += ["wire b", "wmode a all", "send 7a", "wire a"]
+            out.append("h%d.%d.%d sock %s / %s" % (k, size, n, sock, " / ".join(ops)))
+            k += 1
     out += fan_cases(tier, rng, k)
     return out
 
@@ -221,6 +232,26 @@ def judge(line, obs, orc):
         return None
     if sp[0].startswith("f"):
         return fan_judge(line, obs)
+    if sp[0].startswith("h"):
+        t, po = S.pair_ops_obs(line, obs)
+        _, size, n = sp[0].split(".")
+        size, n = int(size), int(n)
+        for op, tk in po:
+            if op[0] == "send" and tk != "s=ok":
+                return "publishing did not return promptly with success: " + str(tk)
+        wa = [tk for op, tk in po if op[0] == "wire" and op[1] == "a"][0].split("=", 1)[1]
+        got = len(bytes.fromhex(wa)) if wa != "-" else 0
+        one = len(W.msg([b"x" * size]))
+        if got > HWM + one + 3:
+            return ("a subscriber that took nothing while %d x %d octets were published received %d octets when it drained: more than "
+                    "the high-water mark plus one message was held for it" % (n, size, got))
+        # whole messages only, in order, then the last small one
+        kept = 0
+        while (kept + 1) * one <= got:
+            kept += 1
+        if got != kept * one + 3 and got != kept * one:
+            return "the drained stream of the stalled subscriber is not a sequence of whole messages (%d octets, message size %d)" % (got, one)
+        return None
     if sp[0].startswith("g"):
         t, po = S.pair_ops_obs(line, obs)
         for op, tk in po:
